@@ -152,6 +152,15 @@ def whereRows (mask : List Bool) (a b : List (List Nat)) : List (List Nat) :=
   let lens := a.map List.length
   unflatten lens (whereFlat (expandMask mask lens) a.flatten b.flatten)
 
+/-- `get_sequences(sequence, intervals)`: the forward slices, strands ignored -/
+def getSequences (seq : List Nat) (ivs : List Iv) : List (List Nat) :=
+  View.extract seq (View.ofBounds ivs).starts (View.ofBounds ivs).lens
+
+/-- `GenomicSequence.extract_intervals(stranded=False)` (also what `genomic_sequence[intervals]` does for
+intervals that are not stranded) -/
+def extractUnstranded (seqs : List (List Nat)) (ivs : List Iv) : List (List Nat) :=
+  ivs.map (fun iv => pySliceNat (seqs.getD iv.chrom []) iv.start iv.stop)
+
 /-- `get_strand_specific_sequences`: ragged-slice the one sequence by the interval bounds,
 reverse-complement everything, `where_rows(strand == '-', reverse complement, forward)` -/
 def strandSpecific (T : Tab) (seqs : List (List Nat)) (ivs : List Iv) : Option (List (List Nat)) :=
